@@ -3,6 +3,8 @@ pub mod arc;
 pub mod engine;
 pub mod gen;
 pub mod glue;
+pub mod mesh;
+pub mod scene;
 pub mod model;
 pub mod props;
 pub mod selftest;
